@@ -203,7 +203,24 @@ def main():
             if SPEC.get("post_delay"):
                 time.sleep(SPEC["post_delay"])
         tasks = []
-        if wl["kind"] == "threaddup":
+        if wl["kind"] == "renamed":
+            # a task class of a generated module (two versions: Learn, then Train with Learn as deprecated alias)
+            import importlib
+            mod = importlib.import_module(wl["module"])
+            cfg = getattr(mod, wl["cls"])(tag=wl["tags"][0], ctl=CTL, maxwait=maxwait)
+            tasks.append((wl["tags"][0], cfg, cfg.submit()))
+            ev(f"submitted {wl['tags'][0]}")
+            phase("submitted")
+        elif wl["kind"] == "pretasks":
+            # a job with several pre-tasks: its identifier must not depend on the process (hash seed)
+            from vpk_jobdir.tasks import PreT
+            cfg = Latched(tag=wl["tags"][0], ctl=CTL, maxwait=maxwait)
+            cfg.add_pretasks(*[PreT(v=i) for i in range(wl.get("npre", 3))])
+            tasks.append((wl["tags"][0], cfg, cfg.submit()))
+            result["identifier"] = cfg.__xpm__.identifier.all.hex()
+            ev(f"submitted {wl['tags'][0]}")
+            phase("submitted")
+        elif wl["kind"] == "threaddup":
             # duplicates of one configuration submitted from other threads while the first submission is still
             # inside ConfigInformation.submit (its user-defined task_outputs is slow)
             from vpk_jobdir.tasks import SlowOut
